@@ -54,8 +54,12 @@ pub enum Role {
         /// of the loop that encloses the Compute
         own_loop_exit: bool,
     },
-    /// PredicateExists on the given hash words
-    Pex([Word; 4]),
+    /// PredicateExists on the given hash words; with a `target` solution the words are set
+    /// (by `finalize`) to the hash under which that solution is registered, so the op yields 1
+    Pex {
+        words: [Word; 4],
+        target: Option<usize>,
+    },
     /// fails on purpose
     Fail(u8),
     /// leaf: digest of the input must equal predicate data slot `slot`
@@ -121,8 +125,16 @@ pub struct GenCfg {
 impl GenCfg {
     pub fn swarm(rng: &mut Rng) -> GenCfg {
         GenCfg {
-            max_nodes: if rng.chance(1, 20) { 40 } else { 2 + rng.usize(9) },
-            max_sols: if rng.chance(1, 30) { 24 } else { 1 + rng.usize(5) },
+            max_nodes: match rng.below(100) {
+                0 => 150,
+                1..=5 => 40,
+                _ => 2 + rng.usize(9),
+            },
+            max_sols: match rng.below(200) {
+                0 => 100,
+                1..=6 => 24,
+                _ => 1 + rng.usize(5),
+            },
             post_reads: rng.chance(2, 3),
             compute: rng.chance(1, 3),
             data_out: rng.chance(2, 3),
@@ -363,7 +375,10 @@ pub fn gen_abstract(rng: &mut Rng, cfg: &GenCfg) -> Abstract {
                         }
                     }
                     7 if cfg.failures => Role::Fail(rng.below(3) as u8),
-                    8 if cfg.pex => Role::Pex([rng.word(), rng.word(), rng.word(), rng.word()]),
+                    8 if cfg.pex => Role::Pex {
+                        words: [rng.word(), rng.word(), rng.word(), rng.word()],
+                        target: if rng.chance(2, 3) { Some(rng.usize(n_sols)) } else { None },
+                    },
                     9 | 10 => Role::Append {
                         stack_words: rng.usize(4),
                         mem_words: rng.usize(4),
@@ -397,10 +412,10 @@ pub fn gen_abstract(rng: &mut Rng, cfg: &GenCfg) -> Abstract {
         preds,
         sols,
         collect_all: rng.chance(1, 2),
-        entry: if rng.chance(1, 3) {
-            Entry::TwoModes
-        } else {
-            Entry::TwoPass
+        entry: match rng.below(6) {
+            0 | 1 => Entry::TwoModes,
+            2 => Entry::RawOutputs,
+            _ => Entry::TwoPass,
         },
         faults: Vec::new(),
         shape: format!("{cfg:?}"),
@@ -557,7 +572,7 @@ pub fn node_program(abs: &Abstract, pi: usize, a: usize) -> Vec<Op> {
             }
             v.push(PUSH(t));
         }
-        Role::Pex(h) => {
+        Role::Pex { words: h, .. } => {
             for w in h {
                 v.push(PUSH(*w));
             }
@@ -755,6 +770,58 @@ pub fn finalize(abs: &mut Abstract, numberings: &[Numbering]) {
     }
 }
 
+/// The words `PredicateExists` must be given to find solution `t` of the materialised set:
+/// SHA-256 over its length-prefixed predicate data slots, contract and predicate address.
+fn pex_words(m: &crate::wl::Mat, t: usize) -> [Word; 4] {
+    let s = &m.set.solutions[t];
+    let mut words: Vec<Word> = Vec::new();
+    for slot in &s.predicate_data {
+        words.push(slot.len() as Word);
+        words.extend_from_slice(slot);
+    }
+    words.extend(word_4_from_u8_32(s.predicate_to_solve.contract.0));
+    words.extend(word_4_from_u8_32(s.predicate_to_solve.predicate.0));
+    digest(&words, &[])
+}
+
+/// `finalize`, then aim every targeted `PredicateExists` at its solution and settle the slots
+/// again. A target is only usable when it solves a *different* predicate (patching the words
+/// changes the program, hence the address, of the predicate that contains the op).
+pub fn finalize_with_pex(abs: &mut Abstract, numberings: &[Numbering]) {
+    finalize(abs, numberings);
+    let mut any = false;
+    for pi in 0..abs.preds.len() {
+        for a in 0..abs.preds[pi].roles.len() {
+            if let Role::Pex { target, .. } = &mut abs.preds[pi].roles[a] {
+                if let Some(t) = *target {
+                    if t >= abs.sols.len() || abs.sols[t].pred == pi {
+                        *target = None;
+                    } else {
+                        any = true;
+                    }
+                }
+            }
+        }
+    }
+    if !any {
+        return;
+    }
+    // two rounds: a target's data holds check slots that may themselves sit downstream of
+    // another PredicateExists
+    for _ in 0..2 {
+        let w = realize(abs, numberings);
+        let m = w.materialize();
+        for pi in 0..abs.preds.len() {
+            for a in 0..abs.preds[pi].roles.len() {
+                if let Role::Pex { words, target: Some(t) } = &mut abs.preds[pi].roles[a] {
+                    *words = pex_words(&m, *t);
+                }
+            }
+        }
+        finalize(abs, numberings);
+    }
+}
+
 fn abs_pre(w: &Workload) -> StateMap {
     w.state_map()
 }
@@ -838,7 +905,13 @@ fn gen_case_once(rng: &mut Rng, cfg: &GenCfg, want_alt: bool) -> Case {
         .iter()
         .map(|p| graph::random_numbering(rng, &p.dag, topo))
         .collect();
-    finalize(&mut abs, &numberings);
+    if want_alt {
+        // a predicate's address is a function of its encoding: an op aimed at an address would
+        // legitimately behave differently under the second numbering
+        finalize(&mut abs, &numberings);
+    } else {
+        finalize_with_pex(&mut abs, &numberings);
+    }
     let w = realize(&abs, &numberings);
     let alt = if want_alt {
         let mut alts = Vec::new();
